@@ -779,3 +779,133 @@ for _n, _i in (("cols", 0), ("rows", 1)):
 
         def ensures(old, s, a, result, _i=_i):
             yield "the-size-given-at-construction", both(result == old.size[_i], s.size[0] == old.size[0], s.size[1] == old.size[1])
+
+
+# ---- TextCanvas.__init__ over the real fields, for canvases of 0 or 1 row (`#up-to-one-row`) and of 2 rows with every
+# optional argument given (`#two-rows`).  The two loops treat every row alike, so these instances put the loop BODY under
+# contract for an arbitrary row (abstract bytes text of any length and width, run-length lists of any length); a
+# list of abstract texts of SYMBOLIC length is out of the engine's reach (no Text element shape in seqs.fresh_seq; the
+# column functions COL / BND of contracts/C11_width.py are keyed by one text's name), which is why the number of rows is
+# fixed per instance.  Rows, padding and run lengths are judged against the specification of calc_width (C11).
+from contracts import C02_rle as RL  # noqa: E402
+from pyvc.text import SConst, SRepeat, SText as _SText  # noqa: E402
+
+
+def _rjust_of_empty(ip, st, f, args, kwargs):
+    """b"".rjust(n): n spaces (none for n <= 0) -- CPython's bytes.rjust pads with b" " up to the width; cross-checked
+    by the static check below."""
+    if getattr(f, "__name__", "") == "rjust" and getattr(f, "__self__", None) == b"" and len(args) == 1 and not kwargs:
+        return SRepeat(SConst(b" "), args[0])
+    return NotImplemented
+
+
+def _xcheck_rjust():
+    bad = [n for n in range(-4, 9) if b"".rjust(n) != b" " * max(n, 0)]
+    return "bytes-rjust-of-empty-agrees-with-cpython", not bad, f"b''.rjust(n) == b' ' * max(n, 0) for n in -4..8; mismatches: {bad}"
+
+
+def _tc_setup(nrows_choices, all_given):
+    def setup(st, self_obj, vals):
+        k = nrows_choices[st.fork(len(nrows_choices))]
+        rows = [Text("bytes").fresh(st, f"row{i}") for i in range(k)]
+        text_none = k == 0 and not all_given and st.fork(2) == 1
+        vals["text"] = None if text_none else LRef(tuple(rows))
+        for name in ("attr", "cs"):
+            none = not all_given and st.fork(2) == 1
+            vals[name] = None if none else LRef(tuple(RL.RLE.fresh(st, f"{name}{i}") for i in range(k)))
+        if all_given:
+            vals["maxcol"] = st.force(vals["maxcol"])
+            if vals["maxcol"] is None:
+                raise PathEnd()
+            vals["check_width"] = True
+            vals["cursor"] = None
+        st.ghost["tc"] = _View(dict(k=k, rows=rows, text=vals["text"], attr=vals["attr"], cs=vals["cs"],
+                                    attr0=[r.seq for r in vals["attr"].seq] if vals["attr"] is not None else None,
+                                    cs0=[r.seq for r in vals["cs"].seq] if vals["cs"] is not None else None))
+
+    return setup
+
+
+from pyvc.engine import PathEnd  # noqa: E402
+
+
+def row_width(t, enc):
+    """calc_width(t, 0, len(t)) by its specification (contracts/C11_width.py): column difference in utf-8, one column a byte otherwise."""
+    return ite(enc == "utf8", W11.COL(t, W11.tlen(t)) - W11.COL(t, 0), W11.tlen(t))
+
+
+def _tc_requires(s, a):
+    # as calc_width's own precondition: the double-byte ("wide") encodings are decided by the bounded check
+    return neg(a.g__byte_encoding == "wide")
+
+
+def _tc_maxcol(a, tc, widths):
+    mc = cur().force(a.maxcol)
+    if mc is not None:
+        return mc
+    return imax(*widths) if len(widths) > 1 else (widths[0] if widths else 0)
+
+
+def _tc_ensures(old, s, a, result):
+    tc = cur().ghost["tc"]
+    f = s.fields
+    cw = a.check_width if isinstance(a.check_width, bool) else bool(a.check_width)
+    yield "returns-none", result is None
+    text = f["_text"]
+    yield "as-many-rows-as-lines-of-text", isinstance(text, LRef) and isinstance(text.seq, tuple) and len(text.seq) == tc.k
+    mc_given = cur().force(a.maxcol)
+    widths = [row_width(t, a.g__byte_encoding) if cw else mc_given for t in tc.rows]
+    maxcol = _tc_maxcol(a, tc, widths)
+    yield "width-is-maxcol-or-the-widest-line", f["_maxcol"] == maxcol
+    for j, t0 in enumerate(tc.rows):
+        t1 = text.seq[j]
+        pad = maxcol - widths[j]
+        p = V.arbitrary(f"pos{j}")
+        yield f"row-{j}-fits", pad >= 0
+        yield f"row-{j}-is-the-line-padded-with-spaces-to-maxcol", both(W11.tlen(t1) == W11.tlen(t0) + pad,
+                                                                        implies(both(0 <= p, p < W11.tlen(t0)), t1.get(p) == t0.get(p)),
+                                                                        implies(both(W11.tlen(t0) <= p, p < W11.tlen(t1)), t1.get(p) == 32))
+        yield f"row-{j}-attribute-runs-cover-the-row", RL.total(f["_attr"].seq[j]) == W11.tlen(t1)
+        yield f"row-{j}-charset-runs-cover-the-row", RL.total(f["_cs"].seq[j]) == W11.tlen(t1)
+        for name, before in (("_attr", tc.attr0), ("_cs", tc.cs0)):
+            if before is not None:
+                L0 = RL.total(before[j])
+                q = V.arbitrary(f"{name}pos{j}")
+                yield f"row-{j}{name}-given-runs-kept-rest-is-none", both(implies(both(0 <= q, q < L0), RL.aeq(RL.at(f[name].seq[j], q), RL.at(before[j], q))),
+                                                                          implies(both(L0 <= q, q < W11.tlen(t1)), opt_isnone(RL.at(f[name].seq[j], q))))
+    cu = cur().force(a.cursor)
+    yield "cursor-as-given", (f["coords"].d.get("cursor") == (cu[0], cu[1], None)) if cu is not None else "cursor" not in f["coords"].d
+    yield "a-leaf-not-finalized", "shards" not in f and f["_widget_info"] is None
+
+
+def _tc_on_raise(old, s, a, exc):
+    tc = cur().ghost["tc"]
+    cw = a.check_width if isinstance(a.check_width, bool) else bool(a.check_width)
+    mc_given = cur().force(a.maxcol)
+    if exc.cls is TypeError:
+        yield "type-error-only-without-a-width-to-trust", (not cw) and mc_given is None
+        return
+    widths = [row_width(t, a.g__byte_encoding) if cw else mc_given for t in tc.rows]
+    maxcol = _tc_maxcol(a, tc, widths)
+    bad = False
+    for j, t0 in enumerate(tc.rows):
+        padded = W11.tlen(t0) + maxcol - widths[j]
+        bad = either(bad, widths[j] > maxcol,
+                     RL.total(tc.attr0[j]) > padded if tc.attr0 is not None else False, RL.total(tc.cs0[j]) > padded if tc.cs0 is not None else False)
+    yield "canvas-error-only-for-a-line-wider-than-maxcol-or-runs-longer-than-their-line", bad
+
+
+_TC_KW = dict(qf_branching=True, branch_timeout_ms=RL.QBT, cover_timeout_ms=RL.CVT, globals_=W11.ENC, inline=("Canvas.__init__", "Canvas.set_cursor", "Canvas.widget_info"), call_real=_rjust_of_empty, replayable=False,
+              no_xcheck="inputs are abstract texts", static_checks=[_xcheck_rjust])
+_TC_PARAMS = dict(text=Const(None), attr=Const(None), cs=Const(None), cursor=Opt(Tup(Int, Int)), maxcol=Opt(Int), check_width=Bool)
+
+for _alias, _rows, _all in (("up-to-one-row", (0, 1), False), ("two-rows", (2,), True)):
+
+    @contract(CV + "TextCanvas.__init__", property=("C02", "C01"), alias=_alias, setup=_tc_setup(_rows, _all), **_TC_KW)
+    class real_textcanvas_init:
+        self_shape = Obj(_canvas.TextCanvas, {})
+        params = _TC_PARAMS
+        raises = (_canvas.CanvasError, TypeError)
+        requires = _tc_requires
+        ensures = _tc_ensures
+        on_raise = _tc_on_raise
